@@ -54,9 +54,9 @@ type RuleStat struct {
 // Ctx is the loaded program plus the obligation log.
 type Ctx struct {
 	globalTabs map[*ssa.Global]fval // immutable package-level tables seen by the folder (fold.go)
-	wm *writerModel // lazily built model of midix.MIDIWriter (emission.go)
-	RepoDir string
-	Overlay map[string][]byte // absolute path -> content (Go and non-Go)
+	wm         *writerModel         // lazily built model of midix.MIDIWriter (emission.go)
+	RepoDir    string
+	Overlay    map[string][]byte // absolute path -> content (Go and non-Go)
 
 	Fset    *token.FileSet
 	Pkgs    map[string]*packages.Package // repo packages by import path
